@@ -6,7 +6,11 @@
 //
 // One run = one tape. Stratum 0 drives a real certManager on the bubble's virtual clock (clock.New() inside
 // testing/synctest) through a drawn trajectory; stratum 1 presents generated certificate / hash-list pairs
-// to verifyRawCerts at drawn clock offsets. The host key is derived from the tape, so a run (including all
+// to verifyRawCerts at drawn clock offsets; stratum 2 (added for the second-round seeds) runs the real dialer
+// (transport.Dial -> dial -> verifyRawCerts -> upgrade with its certhash confirmation in the Noise early data)
+// against the real listener over an in-memory UDP network inside the bubble, with dialled addresses of 1-4
+// certhashes (served / next / previous / stale own / foreign / bogus at drawn positions) across roll-overs and
+// server restarts — see the comment above vsDial. The host key is derived from the tape, so a run (including all
 // certificate bytes of the ECDSA path) is a pure function of the tape; traces and signatures nevertheless
 // contain structural facts only (offsets, indices, outcome classes), never key or hash bytes.
 //
@@ -34,6 +38,19 @@
 //   verifier/accepted/<defect>, verifier/rejected-valid
 //                                            verifyRawCerts accepts exactly: non-empty chain, server (first)
 //                                            certificate's SHA-256 listed as sha2-256, not RSA, <= 14 days, valid now
+//   dial/completed-without-pinned-certificate
+//                                            a dial completed although neither the certificate served before nor the
+//                                            one served after the dial is among the certhashes of the dialled address
+//   dial/completed-with-unconfirmed-hash/{only,first,middle,last}
+//                                            a dial completed although a certhash of the dialled address is in
+//                                            SerializedCertHashes() neither before nor after the dial ("completes only if
+//                                            the server confirms every certificate hash"; every sha2-256 certhash of the
+//                                            dialled address would have been accepted by the TLS pinning, so the dialer
+//                                            relies on all of them; discriminator = position of the first unconfirmed one)
+//   dial/refused-valid-address               a fault-free dial failed although the served certificate did not change
+//                                            during it, is pinned by the address, and every certhash of the address is
+//                                            confirmed before and after (counterpart of verifier/rejected-valid; includes
+//                                            "a learned address keeps verifying" while the manager keeps running)
 // Weaker readings taken (guide rule 1/6): period ends are exclusive (at the exact roll-over instant either
 // certificate may be served); a certificate period ends at NotAfter-skew (package doc comment: "we stop using a
 // certificate one clockSkewAllowance before its expiry"); the end of the *following* period is read from the
@@ -70,6 +87,14 @@
 //     verifyRawCerts: PublicKeyAlgorithm check removed      verifier/accepted/rsa-subject-key
 //     verifyRawCerts: multihash code not compared           verifier/accepted/hash-not-listed-as-sha2-256
 //     verifyRawCerts: last instead of first certificate     verifier/accepted/chain-pinned-cert-not-first
+//   transport.go / listener.go (dial stratum)
+//     upgrade(): only the LAST certhash of the address      dial/completed-with-unconfirmed-hash/{first,middle} (second-round seed C18b-2)
+//       checked (missing overwritten per iteration)
+//     upgrade(): only the first certhash checked            dial/completed-with-unconfirmed-hash/{middle,last}
+//     upgrade(): confirmation loop skipped                  dial/completed-with-unconfirmed-hash/*
+//     dial(): VerifyPeerCertificate returns nil             dial/completed-without-pinned-certificate
+//     listener sends only the first of its hashes           dial/refused-valid-address
+//     rollConfig(): lastConfig assigned after the caches    learned-addr/hash-not-confirmed/same-incarnation (seed C18b-1)
 //   Not caught, by design: key-derived offset dropped (getCurrentBucketStartTime(start, 0)) — all hosts then rotate
 //   at the same instants, which the statement does not forbid (equivalent mutant for this property).
 // Found on the pinned tree by this harness before the fixes 42df5f3 / 581fd0e: chain-pinned-cert-not-first,
@@ -78,6 +103,7 @@ package libp2pwebtransport
 
 import (
 	"bytes"
+	"context"
 	crand "crypto/rand"
 	"crypto/rsa"
 	"crypto/sha256"
@@ -86,7 +112,10 @@ import (
 	"crypto/x509/pkix"
 	"encoding/binary"
 	"fmt"
+	"io"
+	"log/slog"
 	"math/big"
+	"net"
 	"sort"
 	"strings"
 	"sync"
@@ -95,9 +124,15 @@ import (
 
 	"github.com/benbjohnson/clock"
 	ic "github.com/libp2p/go-libp2p/core/crypto"
+	"github.com/libp2p/go-libp2p/core/network"
+	"github.com/libp2p/go-libp2p/core/peer"
+	tpt "github.com/libp2p/go-libp2p/core/transport"
+	"github.com/libp2p/go-libp2p/p2p/transport/quicreuse"
+	"github.com/marcopolo/simnet"
 	ma "github.com/multiformats/go-multiaddr"
 	"github.com/multiformats/go-multibase"
 	"github.com/multiformats/go-multihash"
+	"github.com/quic-go/quic-go"
 
 	"verifsim/harness/common"
 	"verifsim/simrt"
@@ -116,10 +151,13 @@ func TestSim(t *testing.T) {
 func vsRun(t *testing.T, tape *simrt.Tape) *common.Outcome {
 	g := simrt.Gen{S: tape.G}
 	o := &common.Outcome{}
-	if g.Weighted(3, 1) == 0 {
+	switch g.Weighted(3, 1, 1) {
+	case 0:
 		vsTrajectory(t, tape, g, o)
-	} else {
+	case 1:
 		vsVerifier(t, tape, g, o)
+	case 2:
+		vsDial(t, tape, g, o)
 	}
 	return o
 }
@@ -184,6 +222,61 @@ func vsNear(g simrt.Gen) (time.Duration, string) {
 	return 0, "+0"
 }
 
+// vsDrawStart draws the instant at which a manager is created, relative to the key's roll-over grid
+// (R = a roll-over instant, R-skew = bucket boundary, R+skew = expiry of the previous bucket's certificate).
+func vsDrawStart(g simrt.Gen, o *common.Outcome, R time.Time, period time.Duration) (time.Time, string) {
+	if g.Weighted(3, 1) == 0 {
+		anchor, aname := R, "roll-over instant"
+		switch g.Weighted(3, 2, 1) {
+		case 1:
+			anchor, aname = R.Add(-vsSkew), "bucket boundary (NotBefore of the bucket)"
+		case 2:
+			anchor, aname = R.Add(vsSkew), "expiry of the previous bucket's certificate"
+		}
+		d, dn := vsNear(g)
+		if d == 0 && anchor.Equal(R) {
+			o.Probe("start-exactly-on-rollover-instant")
+		}
+		if d >= -vsSkew && d <= vsSkew {
+			o.Probe("start-within-skew-of-boundary")
+		}
+		return anchor.Add(d), aname + " " + dn
+	}
+	d := vsUniform(g, period)
+	return R.Add(d), fmt.Sprintf("roll-over instant + %s (third %d of the period)", d, int(3*d/period))
+}
+
+// vsDrawTarget draws the next sampling instant (W = documented roll-over instant of the served certificate).
+func vsDrawTarget(g simrt.Gen, now, W time.Time, period time.Duration) (time.Time, string) {
+	switch g.Weighted(2, 3, 3, 3, 3, 2, 2, 3, 1) {
+	case 1:
+		return W, "to the roll-over instant"
+	case 2:
+		return W.Add(-1), "to 1ns before the roll-over instant"
+	case 3:
+		return W.Add(1), "to 1ns after the roll-over instant"
+	case 4:
+		d, dn := vsNear(g)
+		return W.Add(d), "to the roll-over instant " + dn
+	case 5:
+		// NotBefore of the next certificate (W-skew) or expiry of the current one (W+skew)
+		d, dn := vsNear(g)
+		if g.Bool() {
+			return W.Add(vsSkew).Add(d), "to the expiry of the served certificate " + dn
+		}
+		return W.Add(-vsSkew).Add(d), "to NotBefore of the next certificate " + dn
+	case 6:
+		d := vsUniform(g, 6*time.Hour)
+		return now.Add(d), "+" + d.String()
+	case 7:
+		d := vsUniform(g, period)
+		return now.Add(d), "+" + d.String()
+	case 8:
+		return now.Add(1), "+1ns"
+	}
+	return now.Add(time.Second), "+1s"
+}
+
 // ---------------------------------------------------------------------------------------------
 // trajectory stratum
 
@@ -201,6 +294,9 @@ type vsSample struct {
 	serial   map[string]bool
 	addr     map[string]bool
 	addrList []string
+	addrSeq  []string     // hashes of AddrComponent() in the order of its /certhash components
+	addrMA   ma.Multiaddr // AddrComponent() as learned
+	prev     int          // previous certificate still confirmed (index), -1 if none
 	next     int       // announced next certificate (index), -1 if none
 	follEnd  time.Time // exclusive end of this sample's following certificate period
 	rolls    int       // switches observed so far in this incarnation chain
@@ -261,7 +357,7 @@ func (tr *vsTraj) take(m *certManager, inc int) *vsSample {
 	o := tr.o
 	simrt.WaitIdle()
 	now := time.Now()
-	s := &vsSample{idx: len(tr.samples), inc: inc, at: now, cert: -1, next: -1, serial: map[string]bool{}, addr: map[string]bool{}}
+	s := &vsSample{idx: len(tr.samples), inc: inc, at: now, cert: -1, next: -1, prev: -1, serial: map[string]bool{}, addr: map[string]bool{}}
 
 	conf := m.GetConfig()
 	if conf == nil || len(conf.Certificates) == 0 || len(conf.Certificates[0].Certificate) == 0 || conf.Certificates[0].Leaf == nil {
@@ -290,7 +386,7 @@ func (tr *vsTraj) take(m *certManager, inc int) *vsSample {
 	}
 	if last != nil && last.tlsConf != nil && len(last.tlsConf.Certificates) > 0 && last.tlsConf.Certificates[0].Leaf != nil {
 		ll := last.tlsConf.Certificates[0].Leaf
-		tr.register(ll.Raw, ll.NotBefore, ll.NotAfter, "previous")
+		s.prev = tr.register(ll.Raw, ll.NotBefore, ll.NotAfter, "previous")
 	}
 
 	// advertised hashes
@@ -307,8 +403,10 @@ func (tr *vsTraj) take(m *certManager, inc int) *vsSample {
 	if err != nil {
 		o.Violate("C18/advertised/undecodable/addr", "sample#%d: AddrComponent() does not parse: %v", s.idx, err)
 	}
+	s.addrMA = ac
 	for _, dh := range ahs {
 		s.addr[vsHashKey(dh.Code, dh.Digest)] = true
+		s.addrSeq = append(s.addrSeq, vsHashKey(dh.Code, dh.Digest))
 	}
 	for k := range s.addr {
 		s.addrList = append(s.addrList, k)
@@ -451,29 +549,7 @@ func vsTrajectory(t *testing.T, tape *simrt.Tape, g simrt.Gen, o *common.Outcome
 		R := pl.NotAfter.Add(-vsSkew).Add(period) // a future roll-over instant with >= one period of room before it
 		o.Logf("key offset class: roll-over instants at %s + k*%s; plan maxRoll=%d steps=%d restarts=%d", tr.rel(R), period, maxRoll, nSteps, nRestarts)
 
-		// start instant relative to the boundaries
-		var start time.Time
-		var sdesc string
-		if g.Weighted(3, 1) == 0 {
-			anchor, aname := R, "roll-over instant"
-			switch g.Weighted(3, 2, 1) {
-			case 1:
-				anchor, aname = R.Add(-vsSkew), "bucket boundary (NotBefore of the bucket)"
-			case 2:
-				anchor, aname = R.Add(vsSkew), "expiry of the previous bucket's certificate"
-			}
-			d, dn := vsNear(g)
-			start, sdesc = anchor.Add(d), aname+" "+dn
-			if d == 0 && anchor.Equal(R) {
-				o.Probe("start-exactly-on-rollover-instant")
-			}
-			if d >= -vsSkew && d <= vsSkew {
-				o.Probe("start-within-skew-of-boundary")
-			}
-		} else {
-			d := vsUniform(g, period)
-			start, sdesc = R.Add(d), fmt.Sprintf("roll-over instant + %s (third %d of the period)", d, int(3*d/period))
-		}
+		start, sdesc := vsDrawStart(g, o, R, period)
 		o.Logf("start at %s = %s", tr.rel(start), sdesc)
 		fmt.Fprintf(&tr.sig, "start=%d", start.Sub(R))
 		if d := time.Until(start); d > 0 {
@@ -581,37 +657,7 @@ func vsTrajectory(t *testing.T, tape *simrt.Tape, g simrt.Gen, o *common.Outcome
 			if !now.Before(limit) {
 				continue // roll-over budget used up and already 1ns before the next one: nothing new to sample
 			}
-			var target time.Time
-			var adesc string
-			switch g.Weighted(2, 3, 3, 3, 3, 2, 2, 3, 1) {
-			case 0:
-				target, adesc = now.Add(time.Second), "+1s"
-			case 1:
-				target, adesc = W, "to the roll-over instant"
-			case 2:
-				target, adesc = W.Add(-1), "to 1ns before the roll-over instant"
-			case 3:
-				target, adesc = W.Add(1), "to 1ns after the roll-over instant"
-			case 4:
-				d, dn := vsNear(g)
-				target, adesc = W.Add(d), "to the roll-over instant "+dn
-			case 5:
-				// NotBefore of the next certificate (W-skew) or expiry of the current one (W+skew)
-				d, dn := vsNear(g)
-				if g.Bool() {
-					target, adesc = W.Add(vsSkew).Add(d), "to the expiry of the served certificate "+dn
-				} else {
-					target, adesc = W.Add(-vsSkew).Add(d), "to NotBefore of the next certificate "+dn
-				}
-			case 6:
-				d := vsUniform(g, 6*time.Hour)
-				target, adesc = now.Add(d), "+"+d.String()
-			case 7:
-				d := vsUniform(g, period)
-				target, adesc = now.Add(d), "+"+d.String()
-			case 8:
-				target, adesc = now.Add(1), "+1ns"
-			}
+			target, adesc := vsDrawTarget(g, now, W, period)
 			if target.After(limit) {
 				target, adesc = limit, adesc+" (capped)"
 			}
@@ -1053,4 +1099,446 @@ func vsFirstLines(s string, n int) string {
 		l = l[:n]
 	}
 	return strings.Join(l, " | ")
+}
+
+// ---------------------------------------------------------------------------------------------
+// dial stratum: the real dialer against the real listener (message level, un-instrumented)
+//
+// Two real WebTransport transports (New + Listen + Dial: real quic-go, http3, webtransport-go, Noise with early data)
+// run inside the bubble over github.com/marcopolo/simnet (the in-memory UDP network /repo already depends on for
+// x/simlibp2p; it does not involve the simulator's scheduler, so the only task of the run is the harness main task).
+// quicreuse runs with DisableReuseport() because its reuse pool has a 30 s garbage-collection ticker that would make
+// weeks of virtual time expensive. The network is fault free (1 ms latency, no loss): the outcome of a dial is then a
+// function of the dialled address and of the server's certificate state alone, and only that outcome (completed /
+// refused at TLS / refused in Noise) is observed. Dials never start within vsDialGuard before a roll-over instant, so
+// that the handshake cannot straddle a switch of the served certificate.
+
+const vsDialGuard = 5 * time.Second
+
+type vsFixedSrc struct{ ip net.IP }
+
+func (f vsFixedSrc) PreferredSourceIPForDestination(*net.UDPAddr) (net.IP, error) { return f.ip, nil }
+
+func vsConnManager(nw *simnet.Simnet, ip string, nextPort *int, tag byte) (*quicreuse.ConnManager, error) {
+	ls := simnet.NodeBiDiLinkSettings{
+		Downlink: simnet.LinkSettings{BitsPerSecond: 1_000_000_000},
+		Uplink:   simnet.LinkSettings{BitsPerSecond: 1_000_000_000},
+	}
+	return quicreuse.NewConnManager(quic.StatelessResetKey{tag}, quic.TokenGeneratorKey{tag},
+		quicreuse.DisableReuseport(),
+		quicreuse.OverrideSourceIPSelector(func() (quicreuse.SourceIPSelector, error) { return vsFixedSrc{net.ParseIP(ip)}, nil }),
+		quicreuse.OverrideListenUDP(func(_ string, a *net.UDPAddr) (net.PacketConn, error) {
+			b := &net.UDPAddr{IP: net.ParseIP(ip), Port: a.Port}
+			if b.Port == 0 {
+				*nextPort++
+				b.Port = *nextPort
+			}
+			return nw.NewEndpoint(b, ls), nil
+		}))
+}
+
+type vsDialEntry struct {
+	label string
+	hkey  string
+	dig   []byte
+}
+
+func vsDialErrClass(err error) string {
+	s := err.Error()
+	switch {
+	case strings.Contains(s, "missing cert hash"):
+		return "refused in Noise (missing cert hash)"
+	case strings.Contains(s, "cert hash not found"):
+		return "refused at TLS (cert hash not found)"
+	case strings.Contains(s, "context deadline exceeded"), strings.Contains(s, "timeout"):
+		return "timed out"
+	}
+	return "failed otherwise"
+}
+
+func vsDial(t *testing.T, tape *simrt.Tape, g simrt.Gen, o *common.Outcome) {
+	tr := &vsTraj{o: o, byRaw: map[string]int{}, byNB: map[int64]int{}, byHash: map[string]int{}}
+	finished := false
+	dials, completed := 0, 0
+	trouble := func(format string, a ...any) {
+		if o.Trouble == "" {
+			o.Trouble = fmt.Sprintf(format, a...)
+		}
+	}
+	res := simrt.Run(t, simrt.Config{MaxSteps: 4000, IdleLimit: 200 * 365 * vsDay}, tape.S, func() {
+		tr.t0 = time.Now()
+		skey, err1 := vsKey(g)
+		ckey, err2 := vsKey(g)
+		fkey, err3 := vsKey(g)
+		if err1 != nil || err2 != nil || err3 != nil {
+			trouble("keys: %v %v %v", err1, err2, err3)
+			return
+		}
+		sid, err := peer.IDFromPrivateKey(skey)
+		if err != nil {
+			trouble("peer id: %v", err)
+			return
+		}
+		nEvents := g.Range(1, 7)
+
+		// the server key's roll-over grid (planning only), as in the trajectory stratum
+		probe, err := newCertManager(skey, clock.New())
+		if err != nil {
+			o.Violate("C18/start-failed", "newCertManager at %s: %v", tr.rel(time.Now()), err)
+			return
+		}
+		pl := probe.GetConfig().Certificates[0].Leaf
+		tr.register(pl.Raw, pl.NotBefore, pl.NotAfter, "served by the planning incarnation")
+		probe.Close()
+		period := pl.NotAfter.Sub(pl.NotBefore) - 2*vsSkew
+		if period < 4*vsSkew {
+			period = 4 * vsSkew
+		}
+		R := pl.NotAfter.Add(-vsSkew).Add(period)
+		start, sdesc := vsDrawStart(g, o, R, period)
+		o.Logf("dial stratum: %d events; server starts at %s = %s", nEvents, tr.rel(start), sdesc)
+		fmt.Fprintf(&tr.sig, "start=%d", start.Sub(R))
+		if d := time.Until(start); d > 0 {
+			simrt.TimeSleep(d)
+		}
+
+		nw := &simnet.Simnet{LatencyFunc: simnet.StaticLatency(time.Millisecond), Logger: slog.New(slog.DiscardHandler)}
+		nw.Start()
+		defer nw.Close()
+		sport, cport := 4000, 20000
+		ccm, err := vsConnManager(nw, "1.0.0.2", &cport, 2)
+		if err != nil {
+			trouble("client conn manager: %v", err)
+			return
+		}
+		defer ccm.Close()
+		ctp, err := New(ckey, nil, ccm, nil, &network.NullResourceManager{})
+		if err != nil {
+			trouble("client transport: %v", err)
+			return
+		}
+		defer ctp.(io.Closer).Close()
+
+		// server incarnation
+		var scm *quicreuse.ConnManager
+		var stp *transport
+		var ln tpt.Listener
+		var base ma.Multiaddr
+		stopServer := func() {
+			if ln != nil {
+				ln.Close()
+				ln = nil
+			}
+			if stp != nil {
+				stp.Close()
+				stp = nil
+			}
+			if scm != nil {
+				scm.Close()
+				scm = nil
+			}
+		}
+		defer stopServer()
+		startServer := func() bool {
+			sport++
+			dummy := 30000
+			var err error
+			scm, err = vsConnManager(nw, "1.0.0.1", &dummy, 1)
+			if err != nil {
+				trouble("server conn manager: %v", err)
+				return false
+			}
+			x, err := New(skey, nil, scm, nil, &network.NullResourceManager{}, WithClock(clock.New()))
+			if err != nil {
+				trouble("server transport: %v", err)
+				return false
+			}
+			stp = x.(*transport)
+			ln, err = stp.Listen(ma.StringCast(fmt.Sprintf("/ip4/1.0.0.1/udp/%d/quic-v1/webtransport", sport)))
+			if err != nil {
+				o.Violate("C18/start-failed", "Listen at %s: %v", tr.rel(time.Now()), vsDialErrClass(err))
+				return false
+			}
+			base, _ = ma.SplitFunc(ln.Multiaddr(), func(c ma.Component) bool { return c.Protocol().Code == ma.P_CERTHASH })
+			return true
+		}
+		if !startServer() {
+			return
+		}
+		inc := 0
+		cur := tr.take(stp.certManager, inc)
+		if cur == nil {
+			return
+		}
+
+		for ev := 0; ev < nEvents; ev++ {
+			now := time.Now()
+			c := tr.certs[cur.cert]
+			W := c.na.Add(-vsSkew)
+			if !W.After(now) {
+				W = now.Add(period)
+			}
+			kind := g.Weighted(5, 3, 2, 1) // composed dial | advance | dial of a learned address | restart
+			switch kind {
+			case 1: // advance (at most one switch between consecutive samples)
+				limit := cur.follEnd.Add(-1)
+				if !limit.After(W) {
+					limit = W.Add(period - 1)
+				}
+				target, adesc := vsDrawTarget(g, now, W, period)
+				if target.After(limit) {
+					target, adesc = limit, adesc+" (capped)"
+				}
+				if target.Before(now) {
+					target = now
+				}
+				o.Logf("event %d: advance %s => %s", ev, adesc, tr.rel(target))
+				fmt.Fprintf(&tr.sig, "|A")
+				if d := target.Sub(now); d > 0 {
+					simrt.TimeSleep(d)
+				}
+				prev := cur
+				if cur = tr.take(stp.certManager, inc); cur == nil {
+					return
+				}
+				if cur.cert != prev.cert {
+					o.Probe("rollover-observed")
+				}
+				continue
+			case 3: // restart of the server (only the key survives); new port, same IP
+				stopServer()
+				var gap time.Duration
+				switch g.Weighted(2, 2, 2, 2) {
+				case 1:
+					gap = vsUniform(g, 2*time.Hour)
+				case 2:
+					d, _ := vsNear(g)
+					gap = W.Add(d).Sub(now)
+				case 3:
+					gap = vsUniform(g, 2*period)
+				}
+				if gap < 0 {
+					gap = 0
+				}
+				o.Logf("event %d: server closed at %s, restarted after %s", ev, tr.rel(now), gap)
+				fmt.Fprintf(&tr.sig, "|R%d", gap)
+				if gap > 0 {
+					simrt.TimeSleep(gap)
+				}
+				if !startServer() {
+					return
+				}
+				inc++
+				o.Probe("restarted")
+				if cur = tr.take(stp.certManager, inc); cur == nil {
+					return
+				}
+				continue
+			}
+
+			// --- a dial. Never let the handshake straddle a roll-over.
+			if d := W.Sub(now); d > 0 && d < vsDialGuard {
+				o.Logf("event %d: %s before the roll-over instant: waiting for it", ev, d)
+				simrt.TimeSleep(d)
+				if cur = tr.take(stp.certManager, inc); cur == nil {
+					return
+				}
+				c = tr.certs[cur.cert]
+			}
+			var entries []vsDialEntry
+			var what string
+			add := func(label string, raw string) {
+				sum := sha256.Sum256([]byte(raw))
+				e := vsDialEntry{label: label, hkey: vsHashKey(multihash.SHA2_256, sum[:]), dig: sum[:]}
+				for _, x := range entries {
+					if x.hkey == e.hkey {
+						return
+					}
+				}
+				entries = append(entries, e)
+			}
+			if kind == 2 {
+				// an address exactly as learned at an earlier sample (possibly of an earlier incarnation)
+				e := tr.samples[g.Int(len(tr.samples))]
+				for _, h := range e.addrSeq {
+					if i, ok := tr.byHash[h]; ok {
+						add(fmt.Sprintf("cert#%d", i), tr.certs[i].raw)
+					}
+				}
+				what = fmt.Sprintf("address learned at sample#%d (inc %d, %s)", e.idx, e.inc, tr.rel(e.at))
+				if e.inc == inc && e.cert != cur.cert {
+					o.Probe("dial-learned-address-in-following-period")
+				}
+			} else {
+				n := g.Range(1, 4)
+				for k := 0; k < n; k++ {
+					switch g.Weighted(4, 2, 2, 1, 1, 3, 1) {
+					case 0:
+						add("served", c.raw)
+					case 1:
+						if cur.next >= 0 {
+							add("next", tr.certs[cur.next].raw)
+						}
+					case 2:
+						if cur.prev >= 0 {
+							add("previous", tr.certs[cur.prev].raw)
+						}
+					case 3, 4:
+						// a certificate of this server for a period it neither serves nor announces now
+						shift, label := -2*period, "own, two periods ago"
+						if g.Bool() {
+							shift, label = 2*period, "own, two periods ahead"
+						}
+						if oc, _, err := generateCert(skey, c.nb.Add(shift), c.nb.Add(shift).Add(c.na.Sub(c.nb))); err == nil {
+							add(label, string(oc.Raw))
+						}
+					case 5:
+						// certificate of another host (what a relay in front of the server would present)
+						if fc, _, err := generateCert(fkey, c.nb, c.na); err == nil {
+							add("foreign host's certificate", string(fc.Raw))
+						}
+					case 6:
+						add("no certificate at all", fmt.Sprintf("verifsim-%d-%d", ev, k))
+					}
+				}
+				// mostly make sure the served certificate is pinned somewhere, at a drawn position
+				if g.Chance(3, 4) {
+					had := false
+					for _, x := range entries {
+						had = had || x.label == "served"
+					}
+					if !had {
+						add("served", c.raw)
+						at := g.Int(len(entries))
+						last := entries[len(entries)-1]
+						copy(entries[at+1:], entries[at:len(entries)-1])
+						entries[at] = last
+					}
+				}
+				if len(entries) == 0 {
+					add("served", c.raw)
+				}
+				what = "composed address"
+			}
+			if len(entries) == 0 {
+				continue
+			}
+			addr := base
+			var labels []string
+			for _, e := range entries {
+				comp, err := addrComponentForCert(e.dig)
+				if err != nil {
+					trouble("certhash component: %v", err)
+					return
+				}
+				addr = addr.AppendComponent(comp)
+				labels = append(labels, e.label)
+			}
+			before := cur
+			ctx, cancel := context.WithTimeout(context.Background(), time.Minute)
+			conn, derr := ctp.Dial(ctx, addr, sid)
+			cancel()
+			if derr == nil {
+				conn.Close()
+			}
+			// a handshake takes a few (not exactly reproducible) milliseconds of virtual time: continue on a whole second
+			if el := time.Since(before.at); el%time.Second != 0 {
+				simrt.TimeSleep(time.Second - el%time.Second)
+			}
+			after := tr.take(stp.certManager, inc)
+			if after == nil {
+				return
+			}
+			cur = after
+			dials++
+			outcome := "completed"
+			if derr != nil {
+				outcome = vsDialErrClass(derr)
+			}
+			o.Logf("event %d: dial %s = /certhash x%d [%s] at %s => %s", ev, what, len(entries), strings.Join(labels, " | "), tr.rel(before.at), outcome)
+			fmt.Fprintf(&tr.sig, "|D%d:%s:%s", kind, strings.Join(labels, ","), outcome)
+
+			// judge (weaker reading while the server's state changed during the dial: union of both states)
+			servedPinned, unconfirmedAt := false, -1
+			for i, e := range entries {
+				if e.hkey == tr.certs[before.cert].hkey || e.hkey == tr.certs[after.cert].hkey {
+					servedPinned = true
+				}
+				if !before.serial[e.hkey] && !after.serial[e.hkey] && unconfirmedAt < 0 {
+					unconfirmedAt = i
+				}
+			}
+			stable := before.cert == after.cert
+			allConfirmedBoth := true
+			for _, e := range entries {
+				if !before.serial[e.hkey] || !after.serial[e.hkey] {
+					allConfirmedBoth = false
+				}
+			}
+			switch {
+			case derr == nil:
+				completed++
+				o.Probe("dial-completed")
+				if !servedPinned {
+					o.Violate("C18/dial/completed-without-pinned-certificate",
+						"dial of %s [%s] at %s completed although the served cert#%d is not among its certhashes", what, strings.Join(labels, " | "), tr.rel(before.at), before.cert)
+				}
+				if unconfirmedAt >= 0 {
+					pos := "middle"
+					switch {
+					case len(entries) == 1:
+						pos = "only"
+					case unconfirmedAt == 0:
+						pos = "first"
+					case unconfirmedAt == len(entries)-1:
+						pos = "last"
+					}
+					o.Violate("C18/dial/completed-with-unconfirmed-hash/"+pos,
+						"dial of %s [%s] at %s (inc %d) completed although the server (serving cert#%d, SerializedCertHashes()=%s) never confirms certhash #%d (%s) of the dialled address",
+						what, strings.Join(labels, " | "), tr.rel(before.at), inc, before.cert, tr.names(before.serial), unconfirmedAt+1, entries[unconfirmedAt].label)
+				}
+			case stable && servedPinned && allConfirmedBoth:
+				o.Violate("C18/dial/refused-valid-address",
+					"fault-free dial of %s [%s] at %s (inc %d) %s although it pins the served cert#%d and the server confirms every certhash of it (SerializedCertHashes()=%s)",
+					what, strings.Join(labels, " | "), tr.rel(before.at), inc, outcome, before.cert, tr.names(before.serial))
+			case !servedPinned:
+				o.Probe("dial-refused-served-certificate-not-pinned")
+			default:
+				o.Probe("dial-refused-unconfirmed-hash")
+				if unconfirmedAt >= 0 && unconfirmedAt < len(entries)-1 && entries[len(entries)-1].hkey == tr.certs[before.cert].hkey {
+					o.Probe("dial-refused-unconfirmed-hash-before-genuine-last")
+				}
+				if kind == 2 {
+					o.Probe("dial-learned-address-refused-after-restart-or-expiry")
+				}
+			}
+		}
+		stopServer()
+		finished = true
+	})
+	o.Sched = res
+	o.Virtual = vsVirtual(res.Virtual)
+	o.Sig = "D:" + tr.sig.String()
+	if res.Panic != "" {
+		o.Violate("C18/panic", "%s", vsFirstLines(res.Panic, 12))
+		return
+	}
+	if o.Trouble != "" {
+		return
+	}
+	if res.StepLimit || res.Stuck {
+		o.Trouble = fmt.Sprintf("dial run cut: steplimit=%v stuck=%v", res.StepLimit, res.Stuck)
+		return
+	}
+	if !finished && len(o.Violations) == 0 {
+		o.Trouble = "dial run did not finish"
+		return
+	}
+	if len(res.Residue) > 0 && len(o.Violations) == 0 {
+		o.Trouble = fmt.Sprintf("goroutines left after everything was closed: %v", res.Residue)
+		return
+	}
+	// non-trivial: at least one dial was judged
+	o.Nontrivial = dials > 0
+	_ = completed
 }
